@@ -50,12 +50,14 @@ func c17Max(tier string) int {
 }
 
 // slot kinds: own (own-line: // or /* */ or directive), eol (end of line: // or /* */), mid (inside an expression: /* */ only)
-var c17SlotOrder = []string{"header", "build", "pkgdoc", "pkgtrail", "pkgtrail2", "free1", "d1doc", "d1open", "d1in", "d1own", "d1trail", "d1trail2", "free2", "d2doc", "d2own", "d2eol", "d2mid", "d2trail", "d2trail2", "free3", "d3doc", "d3trail", "eof"}
+var c17SlotOrder = []string{"header", "build", "pkgdoc", "pkgtrail", "pkgtrail2", "free1", "d1doc", "d1open", "d1in", "d1own", "d1trail", "d1trail0", "d1trail2", "free2", "d2doc", "d2own", "d2eol", "d2mid", "d2trail", "d2trail2", "free3", "d3doc", "d3trail", "eof"}
 
 var c17SlotKind = map[string]string{"header": "own", "build": "build", "pkgdoc": "own", "pkgtrail": "eolpkg", "pkgtrail2": "eol2", "free1": "own", "d1doc": "own", "d1open": "eol", "d1in": "eol", "d1own": "own",
-	"d1trail": "eol", "d1trail2": "eol2", "d2trail2": "eol2", "free2": "own", "d2doc": "own", "d2own": "own", "d2eol": "eol", "d2mid": "mid", "d2trail": "eol", "free3": "own", "d3doc": "own", "d3trail": "eol", "eof": "own"}
+	"d1trail": "eol", "d1trail0": "eol0", "d1trail2": "eol2", "d2trail2": "eol2", "free2": "own", "d2doc": "own", "d2own": "own", "d2eol": "eol", "d2mid": "mid", "d2trail": "eol", "free3": "own", "d3doc": "own", "d3trail": "eol", "eof": "own"}
 
 func c17Render(slots map[string]string, sites string) string {
+	imp := strings.HasSuffix(sites, "/imp") // the file has one import, which the patch removes or replaces; the site refers to it
+	sites = strings.TrimSuffix(sites, "/imp")
 	funcs := strings.HasSuffix(sites, "/funcs")
 	sites = strings.TrimSuffix(sites, "/funcs")
 	siteFirst := strings.HasSuffix(sites, "/sitefirst") // the declaration containing the site is the first of the file
@@ -71,6 +73,9 @@ func c17Render(slots map[string]string, sites string) string {
 	eol := func(s string) string {
 		if c, ok := slots[s]; ok {
 			return " " + c
+		}
+		if c, ok := slots[s+"0"]; ok { // trailing comment glued to the last token
+			return c
 		}
 		if c, ok := slots[s+"2"]; ok { // trailing comment that continues on the next line
 			return " " + c + "\n" + strings.Replace(c, "// c", "// second line of c", 1)
@@ -88,6 +93,9 @@ func c17Render(slots map[string]string, sites string) string {
 	b.WriteString(free("build"))
 	b.WriteString(own("pkgdoc", ""))
 	b.WriteString("package p" + eol("pkgtrail") + "\n\n")
+	if imp {
+		b.WriteString("import \"old/p\"\n\n")
+	}
 	head := b.String()
 	b.Reset()
 	b.WriteString(free("free1"))
@@ -108,6 +116,9 @@ func c17Render(slots map[string]string, sites string) string {
 	call := "foo(1)"
 	if sites == "d4" {
 		call = "bar(1)"
+	}
+	if imp {
+		call = "p.Foo(1)"
 	}
 	b.WriteString("func site() {\n\tpre()\n" + own("d2own", "\t") + "\t" + call + eol("d2eol") + "\n\tmid(" + mid + "2)\n}" + eol("d2trail") + "\n\n")
 	blockD2 := b.String()
@@ -171,7 +182,10 @@ func c17Single() map[string]*model.Change {
 		"funcdecl":         {Kind: "decl", Lines: model.L("-func site() {", "+func renamed() {", " DOTS_1", " }")},
 		"typedecl":         {Kind: "decl", Lines: model.L(" type T struct {", "-a int", "+a int64", " DOTS_1", " }")},
 		"valuedecl":        {Kind: "decl", Meta: xm, Lines: model.L("-var last = x", "+var last = mark(x)")},
-		"expr+import":      {Kind: "expr", Meta: xm, Imports: []model.Import{{Tag: "+", Path: "new/q"}}, Lines: model.L("-foo(x)", "+q.Mark(x)")},
+		// on files whose only import is "old/p" (sites .../imp): the import declaration disappears / is replaced
+		"expr-import":  {Kind: "expr", Meta: xm, Imports: []model.Import{{Tag: "-", Path: "old/p"}}, Lines: model.L("-p.Foo(x)", "+mark(x)")},
+		"expr-+import": {Kind: "expr", Meta: xm, Imports: []model.Import{{Tag: "-", Path: "old/p"}, {Tag: "+", Path: "new/q"}}, Lines: model.L("-p.Foo(x)", "+q.Foo(x)")},
+		"expr+import":  {Kind: "expr", Meta: xm, Imports: []model.Import{{Tag: "+", Path: "new/q"}}, Lines: model.L("-foo(x)", "+q.Mark(x)")},
 	}
 }
 
@@ -192,6 +206,8 @@ func c17Gen(tier string, emit func(any)) {
 			return []string{fmt.Sprintf("// c%d %s", n, slot), fmt.Sprintf("/* c%d %s */", n, slot)}
 		case "eolpkg": // also: two comments on the package line
 			return []string{fmt.Sprintf("// c%d %s", n, slot), fmt.Sprintf("/* c%d %s */", n, slot), fmt.Sprintf("/* c%d %s */ // c%db %s", n, slot, n, slot)}
+		case "eol0":
+			return []string{fmt.Sprintf("// c%d %s", n, slot), fmt.Sprintf("/* c%d %s */", n, slot)}
 		case "eol2":
 			return []string{fmt.Sprintf("// c%d %s", n, slot)}
 		default:
@@ -202,13 +218,16 @@ func c17Gen(tier string, emit func(any)) {
 	var rec func(start int, slots map[string]string)
 	emitFor := func(slots map[string]string) {
 		for _, id := range ids {
-			for _, sites := range []string{"d2", "d2+d3", "d4", "d2/funcs", "d4/funcs", "d2/sitefirst", "d2+d3/sitefirst", "d2/sitefirst/funcs", "d2/sitelast", "d2/sitelast/funcs"} {
+			for _, sites := range []string{"d2", "d2+d3", "d4", "d2/funcs", "d4/funcs", "d2/sitefirst", "d2+d3/sitefirst", "d2/sitefirst/funcs", "d2/sitelast", "d2/sitelast/funcs", "d2/imp", "d2/funcs/imp", "d2/sitefirst/imp", "d2/sitelast/imp"} {
+				if strings.HasSuffix(sites, "/imp") != (id == "expr-import" || id == "expr-+import") {
+					continue
+				}
 				cp := map[string]string{}
 				for k, v := range slots {
 					cp[k] = v
 				}
 				emit(&C17Case{PatchID: id, Changes: patches[id], Slots: cp, Sites: sites, File: c17Render(cp, sites)})
-				if tier == "thorough" || len(cp) <= 1 || sites == "d2" || sites == "d2+d3" || sites == "d4/funcs" || sites == "d2/sitefirst" || sites == "d2/sitelast" {
+				if tier == "thorough" || len(cp) <= 1 || sites == "d2" || sites == "d2+d3" || sites == "d4/funcs" || sites == "d2/sitefirst" || sites == "d2/sitelast" || sites == "d2/imp" {
 					// quick: two-comment placements go through the command line on four of the eight site configurations
 					emit(&C17Case{PatchID: id, Changes: patches[id], Slots: cp, Sites: sites, File: c17Render(cp, sites), Mode: "cli"})
 				}
@@ -387,7 +406,13 @@ func c17Run(env *core.Env, ci any) core.Outcome {
 			continue // rewritten declaration: only the multiset rule applies
 		}
 		untouched++
-		if strings.Join(inD[i].comments, "\n") != strings.Join(outD[i].comments, "\n") {
+		// a comment of the input's header (a continuation of the package line) that now stands directly above this
+		// declaration, because the import declaration between them was removed, is still the header's comment
+		outC := outD[i].comments
+		for len(outC) > 0 && strings.HasPrefix(outC[0], "doc:") && contains(inH, strings.TrimPrefix(outC[0], "doc:")) && !contains(inD[i].comments, outC[0]) && prefixOK {
+			outC = outC[1:]
+		}
+		if strings.Join(inD[i].comments, "\n") != strings.Join(outC, "\n") {
 			slot := "?"
 			for _, cm := range inD[i].comments {
 				if !contains(outD[i].comments, cm) {
